@@ -42,13 +42,13 @@ CHECKS["C01"] = {
 CHECKS["C14"] = {
   "text": "Proof (z3 string theory, all identifiers) that Basin.verify_basin is truthy exactly for an available basin whose run "
           "identifier equals the referrer's (prefix for mapped basins) and never raises, for Optional[str] identifiers on both sides; "
-          "that basins_retrieve hands out no basin whose key is on the ignore list, file-type basins only if local basins are allowed "
-          "and verified, each carrying the ignore list plus all own keys; that Basin.ds passes the ignore list to the opened dataset "
+          "that basins_retrieve hands out no basin whose key is on the ignore list, basins of a class that opens local files only if "
+          "local basins are allowed -- whatever type the definition states (D38, fixed) --, file-type basins verified, each carrying the ignore list plus all own keys; that Basin.ds passes the ignore list to the opened dataset "
           "(ignore set grows strictly along any chain => termination for every reference graph); that get_feature_data serves data only "
-          "after verification; frame obligations: the only writes of _local_basins_allowed are False and the format=='hdf5' guard.",
+          "after verification; that features_basin offers a feature exactly when a basin that is reachable now provides it; frame obligations: the only writes of _local_basins_allowed are False and the format=='hdf5' guard.",
   "note": "Trusted: Basin constructors record their arguments (availability thread outside every contract), python str.__eq__/startswith "
-          "semantics for non-str arguments, file-system existence unconstrained, the scenario of four basin definitions (file, remote, "
-          "internal, relative file) in basins_retrieve is one fixed structure with symbolic flags. Not decided: DCOR/S3 network behaviour, "
+          "semantics for non-str arguments, file-system existence unconstrained, the scenario of six basin definitions (file, remote, "
+          "internal, relative file, and a local-file format declared as remote / as internal) in basins_retrieve is one fixed structure with symbolic flags. Not decided: DCOR/S3 network behaviour, "
           "basin dictionaries without a 'key'. The termination argument (variant on the ignore set) is stated, not mechanised.",
   "technique": "contract-based deductive verification: AST-generated VCs discharged by z3 (strings; cvc5 fallback) plus a solver-free field-write frame analysis"}
 CHECKS["C09"] = {
@@ -127,7 +127,10 @@ CHECKS["C07"] = {
           "output buffer); that RTDCWriter.store_basin names a mapping feature whose content equals the given map, reuses an existing "
           "one only if equal and never overwrites one; that Export.hdf5(basins=True) records for the source (the root file for a "
           "hierarchy child) a local 'file' basin with absolute path + bare file name and the map j -> where(filter)[j] "
-          "(root_of(...) for hierarchy children), and for a basin the source already had the composed map old_map[where(filter)].",
+          "(root_of(...) for hierarchy children), for a basin the source already had the composed map old_map[where(filter)], and for "
+          "a basin of the root parent of a hierarchy child the root's map composed with the root indices of the exported child events "
+          "(D37, fixed); that BasinProxyFeature.__array__ keeps the representation invariant 'the cache is empty or holds exactly "
+          "origin[basinmap]' for every requested dtype.",
   "note": "Trusted: N-FANCY/N-WHERE/N-MASK, N-EMPTY, opaque event payloads, map_indices_child2root contract (C04), the writer stubs of "
           "C02, hashobj as an injective key, json.dumps/loads. The composition argument (exports of exports: out.map == src.map o "
           "selection => out[f][j] == origin[f][...]) is by induction over exports (stated); Basin.load_dataset, BasinProxy, "
